@@ -398,7 +398,8 @@ func (s *Rtmp2MpegtsRemuxer) feedVideo(msg base.RtmpMsg) {
 }
 
 func (s *Rtmp2MpegtsRemuxer) feedAudio(msg base.RtmpMsg) {
-	if len(msg.Payload) <= 2 {
+	// aac的头是2字节，其他格式（opus）是1字节
+	if len(msg.Payload) <= 1 || (len(msg.Payload) == 2 && msg.AudioCodecId() == base.RtmpSoundFormatAac) {
 		Log.Warnf("[%s] rtmp msg too short, ignore. header=%+v, payload=%s", s.uk, msg.Header, hex.Dump(msg.Payload))
 		return
 	}
